@@ -1203,3 +1203,23 @@ package core
 //@   ensures @onlyempty forall a string :: ghost(argdropped)[a] > old(ghost(argdropped)[a]) ==> len(fn(core.getMaybeFileNames, fn(core.LazyArgumentMap.jsonPath, outs, a))) == 0
 //@   loop 1 invariant forall a string :: ghost(argdropped)[a] > old(ghost(argdropped)[a]) ==> len(fn(core.getMaybeFileNames, fn(core.LazyArgumentMap.jsonPath, outs, a))) == 0
 //@   loop 1 invariant held(self.storageLock)
+
+// ---------------------------------------------------------------- C13 the rewritten outputs record stays valid JSON
+// moveOutDir: every key of the object it rebuilds for a struct or typed-map output goes
+// through the JSON encoder (jsonenc[0] counts json.Marshal calls): map keys are legal file
+// names, which may still contain quotes, backslashes or control characters.
+//@ func core.moveOutFiles property C13
+//@   trusted
+//@   modifies ghost(jsonenc)
+//@   ensures ghost(jsonenc)[0] >= old(ghost(jsonenc)[0])
+//@ func core.moveOutArrayDir property C13
+//@   trusted
+//@   modifies ghost(jsonenc)
+//@   ensures ghost(jsonenc)[0] >= old(ghost(jsonenc)[0])
+//@ func core.moveOutDir property C13
+//@   requires w != nil && member != nil && lookup != nil
+//@   ensures @monotone ghost(jsonenc)[0] >= old(ghost(jsonenc)[0])
+//@   loop 1 invariant ghost(jsonenc)[0] >= old(ghost(jsonenc)[0])
+//@   loop 2 invariant 0 <= iter && ghost(jsonenc)[0] >= old(ghost(jsonenc)[0]) + iter
+//@   loop 3 invariant ghost(jsonenc)[0] >= old(ghost(jsonenc)[0])
+//@   loop 4 invariant 0 <= iter && ghost(jsonenc)[0] >= old(ghost(jsonenc)[0]) + iter
